@@ -135,6 +135,10 @@ static Scenario make_c08(std::map<std::string, long> const& cfg)
     std::map<int, std::vector<std::string>> exp;
     long falses = 0, attempted = 0, threw = 0;
     std::map<int, std::vector<std::string>> held;
+    // backtrace operations are issued by one thread per script set (the enumeration skips the others), so that the
+    // program order of that thread is the order in which the backend sees them
+    bool bt_ready = false;
+    long bt_before_init = 0;
     for (auto const& e : w.events)
     {
       std::istringstream is(e);
@@ -155,10 +159,21 @@ static Scenario make_c08(std::map<std::string, long> const& cfg)
             w.fail("unexpected-throw", "log call " + id + " (" + a + ") threw");
         }
       }
-      else if (kind == "bt" && a == "true")
+      else if (kind == "initbt")
+        bt_ready = true; // same capacity every time: a repeated init keeps what is stored (BacktraceStorage::set_capacity)
+      else if (kind == "bt")
       {
-        held[t].push_back(id);
-        if (held[t].size() > 2) held[t].erase(held[t].begin());
+        // a backtrace statement is a log statement: it may be dropped and then counts as discarded
+        ++attempted;
+        if (a == "false")
+          ++falses;
+        else if (!bt_ready)
+          ++bt_before_init; // documented misuse: reported through the notifier, nothing stored
+        else
+        {
+          held[t].push_back(id);
+          if (held[t].size() > 2) held[t].erase(held[t].begin());
+        }
       }
       else if (kind == "flushbt")
       {
@@ -218,8 +233,15 @@ static Scenario make_c08(std::map<std::string, long> const& cfg)
       if (reported != falses)
         w.fail("drop-count-mismatch", "notifier reported " + std::to_string(reported) + " dropped statements, " + std::to_string(falses) + " log calls returned false");
     }
+    long bt_notes = 0;
     for (auto const& n : w.notes)
-      if (n.find("Quill INFO") == std::string::npos) w.fail("unexpected-backend-error", n);
+      if (n.find("init_backtrace(...) needs to be called first") != std::string::npos)
+        ++bt_notes;
+      else if (n.find("Quill INFO") == std::string::npos)
+        w.fail("unexpected-backend-error", n);
+    if (bt_notes != bt_before_init)
+      w.fail("unexpected-backend-error", std::to_string(bt_notes) + " 'init_backtrace needs to be called first' reports for " + std::to_string(bt_before_init) +
+               " backtrace statements accepted before init_backtrace");
     w.vars["attempted"] = attempted;
     if (w.vars.count("stall")) w.fail("control-request-never-completes", "a control request (flush / backtrace / removal) never completes although the backend keeps polling");
   };
